@@ -41,6 +41,15 @@ theorem agg_plusEqSelf (L : Lim) (xs : List Rat) :
   simp only [agg_feed, bind, Option.bind, plusEqSelf_eq_plus]
   exact plus_closed L xs xs
 
+/-- `variance(ddof)` of an Aggregate fed with `n ≥ 2` values is `Σ(x − mean)² / (n − ddof)` for
+    `ddof < n` (population variance for 0, sample variance for 1); never a division by zero -/
+theorem agg_variance (L : Lim) (xs : List Rat) (ddof : Nat) (h2 : 2 ≤ xs.length) (hd : ddof < xs.length) :
+    (closed L xs).variance ddof = some (sqdev (meanOf xs) xs / ((xs.length - ddof : Nat) : Rat)) := by
+  have hne : ((xs.length - ddof : Nat) : Rat) ≠ 0 := natCast_ne_zero _ (by omega)
+  have hc : ¬ (closed L xs).count ≤ 1 := by simp [closed]; omega
+  simp only [Agg.variance, hc, if_false, qdiv]
+  simp only [closed, hne, if_false, nvarOf_eq_sqdev]
+
 /-- non-vacuity / D27 witness: {1,2,3} += {10,20} has nvar 1274/5 (variance 63.7), not 125.008 -/
 example : (do let a ← aggOf ⟨1000, -1000⟩ [1, 2, 3]; let b ← aggOf ⟨1000, -1000⟩ [10, 20]; a.plusEq b)
     = some ⟨5, 36 / 5, 1274 / 5, 1, 20⟩ := by decide +kernel
